@@ -414,7 +414,7 @@ where
         self.session.on_outgoing_disposition(disposition)
     }
 
-    fn on_outgoing_detach(&mut self, detach: Detach) -> SessionFrame {
+    fn on_outgoing_detach(&mut self, detach: Detach) -> Option<SessionFrame> {
         self.session.on_outgoing_detach(detach)
     }
 }
